@@ -182,6 +182,32 @@ theorem expired_login_is_released (ops : List Op) (u t0 f n : Nat) (k : Bool)
     refine ⟨(s.accts u).nextId + 1, ?_⟩
     simp [step, tickAcct, hpl, e1, e2, loginOp, reqLogin, setAcct]
 
+/-- … and likewise a logout accepted at `t1` that never completed is dropped by the first tick at or
+after `t1 + 30 min`. -/
+theorem expired_logout_is_released (ops : List Op) (u t1 f n : Nat) (k : Bool)
+    (h : ((ledgerAfter ops).led u).entry = .open (.out t1))
+    (hexp : (ledgerAfter ops).now ≥ t1 + LogoutTimeout) :
+    ∃ id, (step (step (run ops).1 .tick).1 (.login u f n k)).2.evs = [.ack id n .ok] := by
+  obtain ⟨_, hnow, hrel⟩ := history_accepted ops
+  have hp := (hrel u).p
+  generalize (run ops).1 = s at *
+  generalize ledgerAfter ops = m at *
+  rw [← hnow] at hexp
+  unfold RelP at hp
+  cases hpl : (s.accts u).player with
+  | none => rw [hpl] at hp; rw [hp.1] at h; cases h
+  | some p =>
+    rw [hpl] at hp
+    obtain ⟨he, hc, ht⟩ := hp
+    obtain ⟨fr, nt, lg, st, stt, lk⟩ := p
+    rw [h] at he
+    cases st <;> simp [entryOK] at he
+    obtain ⟨he1, he2⟩ := he
+    have e1 : stt ≤ s.now := by unfold LogoutTimeout at *; omega
+    have e2 : 0 < stt := by unfold LogoutTimeout at *; omega
+    refine ⟨(s.accts u).nextId + 1, ?_⟩
+    simp [step, tickAcct, hpl, e1, e2, loginOp, reqLogin, setAcct]
+
 /-! ### non-vacuity: the hypotheses above are met by concrete histories -/
 
 /-- a held transaction exists (login transaction right after a fresh authorisation) -/
@@ -194,6 +220,10 @@ example : ((ledgerAfter [.login 1 1 1 true, .logined 1 true none]).led 1).entry 
 /-- an expired, never logged-in load exists -/
 example : ((ledgerAfter [.login 1 1 1 true, .adv 120000]).led 1).entry = .open (.auth 0) ∧
     (ledgerAfter [.login 1 1 1 true, .adv 120000]).now ≥ 0 + LoginTimeout := by decide
+
+/-- an expired, never completed logout exists -/
+example : ((ledgerAfter [.login 1 1 1 true, .logined 1 true none, .logoutReq 1, .adv 1800000]).led 1).entry = .open (.out 0) ∧
+    (ledgerAfter [.login 1 1 1 true, .logined 1 true none, .logoutReq 1, .adv 1800000]).now ≥ 0 + LogoutTimeout := by decide
 
 /-- a live load exists (so `live_load_has_record` is not vacuous) -/
 example : ((ledgerAfter [.login 1 1 1 true]).led 1).entry.live = true := by decide
